@@ -49,6 +49,8 @@ type Violation struct {
 	Model   map[string]string
 	Trace   []int
 	Detail  string
+	usedNL  bool
+	refined string
 	KFs     []string // matching known-finding class ids (if any)
 	Outside bool     // sat outside every known class
 	Case    *CaseFile
@@ -105,6 +107,7 @@ type Machine struct {
 	pathVars   []*Term
 	gsnap      map[*ssa.Global]Value
 	payloads   []payloadRec
+	forceExact bool
 	ufArgs     map[string][]*Term // UF predicates applied on this path (validbech32_acc, validdec, ...)
 }
 
@@ -701,7 +704,9 @@ func (m *Machine) runInit(p *ssa.Package) {
 		return
 	}
 	if initFn.Blocks == nil {
+		m.eng.methodMu.Lock()
 		p.Build()
+		m.eng.methodMu.Unlock()
 	}
 	if os.Getenv("GOSYM_DEBUG") != "" {
 		fmt.Fprintln(os.Stderr, "init", p.Pkg.Path())
